@@ -824,7 +824,8 @@ class Client(BaseClient):
                         # an empty path is "." as well: a line which ends
                         # before the name is malformed, not the current
                         # directory
-                        if not line.rstrip().endswith(b"."):
+                        last = line.split()[-1:]
+                        if last not in ([b"."], [b".."]):
                             raise ValueError(f"no name in listing line {line!r}")
                         continue
                     stat = cls.path / name, info
